@@ -11,13 +11,29 @@ class Stats:
         self.queries += 1; self.seconds += dt
 
 
+def robust_check(assertions, timeout_s=60):
+    """z3's search is not run-to-run deterministic (pointer hashing): a query that usually takes 0.1 s occasionally wanders off.
+    Several short attempts with different seeds / arithmetic solvers before one long attempt make the verdict stable.
+    -> (z3 result, solver)"""
+    plan = [(min(timeout_s, max(2.0, timeout_s / 20.0)), 0, None), (min(timeout_s, max(3.0, timeout_s / 12.0)), 1, 2),
+            (min(timeout_s, max(4.0, timeout_s / 8.0)), 2, None), (min(timeout_s, max(5.0, timeout_s / 6.0)), 3, 2), (timeout_s, 4, None)]
+    s = None; r = z3.unknown
+    for (t, seed, arith) in plan:
+        s = z3.Solver()
+        s.set('timeout', int(t * 1000)); s.set('random_seed', seed)
+        if arith is not None:
+            try: s.set('arith.solver', arith)
+            except z3.Z3Exception: pass
+        s.add(*assertions)
+        r = s.check()
+        if r != z3.unknown: break
+    return r, s
+
+
 def prove(pc, claim, lemmas=(), timeout_s=60, stats=None, tactic=None):
     """Is `claim` implied by pc (+ already proven lemmas)?  -> ('unsat'|'sat'|'unknown', model|None, seconds)"""
-    s = z3.Solver() if tactic is None else z3.Tactic(tactic).solver()
-    s.set('timeout', int(timeout_s * 1000))
-    s.add(*pc); s.add(*lemmas)
-    s.add(z3.Not(claim) if not isinstance(claim, bool) else z3.BoolVal(not claim))
-    t0 = time.time(); r = s.check(); dt = time.time() - t0
+    neg = z3.Not(claim) if not isinstance(claim, bool) else z3.BoolVal(not claim)
+    t0 = time.time(); r, s = robust_check(list(pc) + list(lemmas) + [neg], timeout_s); dt = time.time() - t0
     if stats is not None: stats.add(dt)
     if r == z3.sat: return 'sat', s.model(), dt
     if r == z3.unsat: return 'unsat', None, dt
@@ -26,9 +42,7 @@ def prove(pc, claim, lemmas=(), timeout_s=60, stats=None, tactic=None):
 
 def solve(pc, extra=(), timeout_s=60, stats=None):
     """model of pc + extra -> ('sat', model) | ('unsat', None) | ('unknown', None)"""
-    s = z3.Solver(); s.set('timeout', int(timeout_s * 1000))
-    s.add(*pc); s.add(*extra)
-    t0 = time.time(); r = s.check(); dt = time.time() - t0
+    t0 = time.time(); r, s = robust_check(list(pc) + list(extra), timeout_s); dt = time.time() - t0
     if stats is not None: stats.add(dt)
     if r == z3.sat: return 'sat', s.model()
     if r == z3.unsat: return 'unsat', None
